@@ -96,6 +96,10 @@ func c16Tree(dir string, symlinks bool, g int) error {
 		{Path: "sub/b.txt", Kind: "file", Content: "b\n"},
 		{Path: "sub/deep/c.bin", Kind: "file", Content: "\x00\x01c"},
 	}
+	if g%2 == 0 {
+		// an artifact of a size that nobody reads in one piece (its content is this goroutine's own)
+		nodes = append(nodes, hx.TNode{Path: "big.bin", Kind: "file", Content: strings.Repeat(fmt.Sprintf("goroutine-%d|", g), 1200000/12)})
+	}
 	if symlinks {
 		nodes = append(nodes,
 			hx.TNode{Path: "l-file", Kind: "symlink", Target: "a.txt"},
@@ -183,7 +187,7 @@ func c16Once(st *c16State, op c16Op, g, i int, mode string) string {
 		m, err := intoto.RecordArtifacts(paths, []string{"sha256"}, nil, []string{st.tree + "/"}, op.Arg%2 == 0, op.Arg%3 != 0)
 		return res(m, err)
 	case "run":
-		md, err := intoto.InTotoRun("s", st.tree, []string{st.tree}, []string{st.tree}, []string{filepath.Join(hx.BinDir(), "emit"), fmt.Sprintf("w:made-%d-%d.txt:x", g, i), "O:300", "E:100"},
+		md, err := intoto.InTotoRun("s", st.tree, []string{st.tree}, []string{st.tree}, []string{filepath.Join(hx.BinDir(), "emit"), fmt.Sprintf("w:made-%d-%d.txt:x", g, i), "O:300", "E:100", fmt.Sprintf("x:%d", (g+i+op.Arg)%3)},
 			hx.PoolKey(st.keyN).Full(), []string{"sha256"}, nil, []string{st.tree + "/"}, false, op.Arg%2 == 0, op.Arg%4 >= 2)
 		if err != nil {
 			return "error"
